@@ -4,6 +4,7 @@
 #include <vector>
 #include "json.h"
 #include "lib.h"
+#include "sim_core.h"
 
 namespace getters {
 
@@ -188,9 +189,12 @@ inline void release(Ret &r) {
 
 inline J call(const std::string &fn, const std::vector<std::string> &s, const J &iv) {
 	Ret r;
-	if (!acquire(r, fn, s, iv)) { J e = J::obj(); e.set("error", "unknown getter " + fn); return e; }
+	bool ok;
+	ok = acquire(r, fn, s, iv);
+	sim::HarnessScope hs;      // building the canonical JSON is harness work, not library allocation
+	if (!ok) { J e = J::obj(); e.set("error", "unknown getter " + fn); return e; }
 	J j = canon(r);
-	release(r);
+	{ sim::Task *t = sim::self(); bool sv = t ? t->in_lib : false; if (t) t->in_lib = true; release(r); if (t) t->in_lib = sv; }
 	return j;
 }
 
